@@ -189,6 +189,16 @@ func genGlyph(rng *rand.Rand, o *fontOpts) *type1.Glyph {
 				for i := range a {
 					a[i] = genCoord(rng, frac)
 				}
+				switch rng.IntN(6) {
+				case 0:
+					// leaves horizontally AND arrives horizontally (neither short form applies)
+					a[1], a[5] = y, a[3]
+					o.f("curve horizontal at both ends")
+				case 1:
+					// leaves vertically AND arrives vertically
+					a[0], a[4] = x, a[2]
+					o.f("curve vertical at both ends")
+				}
 				g.CurveTo(a[0], a[1], a[2], a[3], a[4], a[5])
 				x, y = a[4], a[5]
 			}
@@ -511,7 +521,9 @@ func genFont(rng *rand.Rand, o *fontOpts) *type1.Font {
 		o.f("creation time in a zone whose offset has seconds")
 	case 7:
 		// zone names which are not customary abbreviations
-		name := []string{"x", "Local", "UTC+5", "ABCDE", "AB", "A B", "-0330", "+0300", "Europe/Berlin", "ÄST", "mst", "A", "ABCDEFG", "GMT+2", "ChST", "WITA", "(Z)", "%"}[rng.IntN(18)]
+		name := []string{"x", "Local", "UTC+5", "ABCDE", "AB", "A B", "-0330", "+0300", "Europe/Berlin", "ÄST", "mst", "A", "ABCDEFG", "GMT+2", "ChST", "WITA", "(Z)", "%",
+			// abbreviations that date parsers treat in a special way
+			"GMT", "GMTT", "GMTST", "GMTAT", "UTC", "UTCT", "UT", "Z", "UTCST", "GMTX", "ZT", "MST", "EST", "EDT"}[rng.IntN(32)]
 		f.CreationDate = time.Date(1990+rng.IntN(60), time.Month(1+rng.IntN(12)), 1+rng.IntN(28), rng.IntN(24), rng.IntN(60), rng.IntN(60), 0, time.FixedZone(name, (rng.IntN(25)-12)*3600))
 		o.f("creation time in a zone with an unusual name")
 	case 1:
